@@ -1395,7 +1395,7 @@ REGION_TRUST = [
 PROPS = {
     'C01': {
         'run': run_c01, 'level': 'proof', 'trust': REGION_TRUST,
-        'rule': 'structured random subject/clip pairs (8 polygon kinds, 10 grids from 3 to 2^20, shifts up to 2^29, 4 clip types x 4 fill rules, nil/empty clip, 3 API variants) plus the committed corpus; distinct = distinct (subject, clip, clip type, fill rule); non-trivial = the solution is non-empty',
+        'rule': 'structured random subject/clip pairs (8 polygon kinds, 10 grids from 3 to 2^20, shifts up to 2^29, 4 clip types x 4 fill rules, nil/empty clip, 3 API variants) plus the committed corpus (minimised failures and known-finding witnesses, run first); distinct = distinct (subject, clip, clip type, fill rule); non-trivial = the solution is non-empty',
         'assumes': ['the reading of "inside the solution" as odd winding of the solution (orientation is C02\'s business)'],
     },
     'C19': {
@@ -1433,7 +1433,7 @@ PROPS = {
         'trust': ['hand-written Gallina models Model/Arith.v and Model/Measures.v (int64 wrap-around explicit, float64(int64) as round53), compared exactly with the Go functions (exported ones directly, unexported ones through the verif hooks) on every generated input',
                   'the float64 result of Area64 is compared through its exact value (2*Area64 as an integer)',
                   'lib/propdefs.py: exact-integer statement of each clause (shoelace sum, extremes, crossing parity, cross product) evaluated on the implementation outputs'],
-        'rule': 'int64 values around 0, +-1, 2^26, 2^29, 2^53, arbitrary 64-bit patterns for the arithmetic kernels; point triples biased to exact collinearity and unit differences; paths of all generator kinds plus the 2^30 square wound 1-5 times; point/polygon pairs with the point on vertices, edges and horizontals through vertices, on grids 2..10 and at 2^26/2^29; non-trivial = collinear triples, paths >= 3 points, all point-in-polygon cases',
+        'rule': 'int64 values around 0, +-1, 2^26, 2^29, 2^53, arbitrary 64-bit patterns for the arithmetic kernels; point triples biased to exact collinearity and unit differences; paths of all generator kinds plus the 2^30 square wound 1-5 times; point/polygon pairs with the point on vertices, edges and horizontals through vertices, on grids 2..10 and at 2^26/2^29, triangles spanning the whole domain with query points a few units off their long edges; CrossProduct on random, nearly collinear far-apart (products beyond 2^54, exact value below 100) and wrapping triples; non-trivial = collinear triples, paths >= 3 points, all point-in-polygon cases',
         'assumes': [],
     },
     'C03': {
@@ -1445,7 +1445,7 @@ PROPS = {
     },
     'C13': {
         'run': run_c13, 'level': 'proof', 'trust': REGION_TRUST + ['Model/Arith.v: explicit int64 wrap-around in the models of CrossProduct, dotProduct64, Area64, productsAreEqual'],
-        'rule': 'small base inputs (grids 4..100) x clip types x fill rules; translated by vectors of magnitude 2^20..2^52 and compared with the untranslated result; scaled by k up to extents 2^61 and certified against the exact boolean region with band 2 + 2^-40 x extent; Area64 and PointInPolygon compared exactly under translation; distinct = distinct (input, vector or factor)',
+        'rule': 'small base inputs (grids 4..100) x clip types x fill rules; translated by vectors of magnitude 2^20..2^52 and compared with the untranslated result; scaled by k up to extents 2^61 and certified against the exact boolean region with band 2 + 2^-40 x extent; Area64, PointInPolygon and SimplifyPath64 compared exactly under translation; RectClipPaths64 and InflatePaths64 (simple polygon sets, all join types) compared as regions under translation; distinct = distinct (input, vector or factor)',
         'assumes': [],
     },
     'C16': {
@@ -1461,7 +1461,7 @@ PROPS = {
         'trust': ['K3 scanner harness/scan.go: purely syntactic (go/ast) listing of package-level variables, writes/address-taking/inc-dec whose root is one of them, init functions, go/select/channel/sync uses, in the non-test non-verif files of /repo, regenerated on every run',
                   'Model/Footprint.v: abstract interleaving model; its hypotheses (each call reads shared state and writes only private state) are what the regenerated facts support, not something proved of Go code',
                   'PARTIAL: data-race freedom under the Go memory model (allocator, runtime, govalues/decimal internals) is not modelled; it is exercised by go test -race with 32 goroutines x 18 API groups on shared read-only inputs, results compared with the sequential run'],
-        'rule': 'per round: one random shared (subject, clip) input; 32 goroutines each run all 18 API groups (package functions and distinct engine / offset / rect-clip objects, including the functions that may return their argument) in rotated order under -race; evaluations = calls made concurrently; non-trivial = rounds x API groups',
+        'rule': 'per round: one random shared (subject, clip) input; 32 goroutines each run all 24 API groups (round-join offsets with different delta/arc-tolerance ratios, rectangle clipping of paths inside the rectangle among them) (package functions and distinct engine / offset / rect-clip objects, including the functions that may return their argument) in rotated order under -race; evaluations = calls made concurrently; non-trivial = rounds x API groups',
         'assumes': [],
     },
     'C11': {
@@ -1478,7 +1478,7 @@ PROPS = {
         'trust': ['Model/Engine.v: hand-written state machine of the engine between calls (flags, scratch lists abstracted to lengths) with the sweep as an oracle; tied to the code by the verif hook VerifScratch: after every history the real engine\'s scratch lengths and sticky flags are compared with the model\'s state',
                   'the oracle hypotheses of C12_fresh_engine (flat output independent of the tree flag; dependence on the added paths only) are what the harness tests: every Execute after a random history is compared with a fresh engine (bytewise; by certified region equality / exact coverage comparison when paths were added in several calls)',
                   'input immutability is checked dynamically (deep copies before/after every call in every harness), not proved'] + REGION_TRUST,
-        'rule': 'random histories of 3-11 operations (AddPaths subject/clip/open, Execute, ExecuteOC, ExecutePolyTree, random clip types and fill rules, pre-filled solution arguments) on Clipper64 and ClipperD, each execute compared with a fresh engine; ClipperOffset executed twice with different deltas and with a group added in between; evaluations = operations; non-trivial = histories',
+        'rule': 'random histories of 3-11 operations (AddPaths subject/clip/open, Execute, ExecuteOC, ExecutePolyTree, random clip types and fill rules, pre-filled solution arguments) on Clipper64 and ClipperD, each execute compared with a fresh engine; ClipperOffset executed twice with different deltas and with a group (possibly of another join type) added in between; evaluations = operations; non-trivial = histories',
         'assumes': [],
     },
     'C07': {
@@ -1486,28 +1486,28 @@ PROPS = {
         'trust': ['K3 translator harness/translate.go: prints the bodies of the floating-point wrappers from /repo\'s current source as terms of the wrapper IR (coq/Model/WrapperIR.v) on every run; the Coq interpreter gives them meaning over uninterpreted primitives (the 64-bit entry points, the scale helpers, math.Pow) and the theorems are re-checked against the regenerated terms',
                   'the numeric behaviour of the quantiser (float64 product, govalues/decimal shortest-decimal parse, half-even Int64(0)) is an oracle: the property itself takes the library\'s quantiser as the reference',
                   'differential run: every float entry point is also executed and compared bit for bit with its 64-bit counterpart applied to ScalePathsDToPaths64(input) and unscaled by ScalePaths64ToPathsD, for all 17 precisions and 4 illegal ones'],
-        'rule': 'float inputs on a lattice of quanta with sub-quantum jitter (exact ties at .5, .49999, .50001) x 21 precisions x 11 entry points (boolean ops, wrappers, engine object, PolyTree, inflate, Minkowski sum/diff, rectangle clipping of polygons and lines, trim); evaluations = entry-point calls; non-trivial = inputs',
+        'rule': 'float inputs on a lattice of quanta with sub-quantum jitter (exact ties at .5, .49999, .50001) x 21 precisions x 13 entry points (boolean ops, wrappers, engine object, engine object with open subjects through ExecuteOC and ExecutePolyTreeD, PolyTree, inflate, Minkowski sum/diff, rectangle clipping of polygons and lines, trim); evaluations = entry-point calls; non-trivial = inputs',
         'assumes': [],
     },
     'C04': {
         'run': run_c04, 'level': 'proof',
         'trust': REGION_TRUST + ['Model/PolyTree.v: node API (Level/IsHole) and the abstract nesting lemma (polygons containing a point form a chain, so a parent is the innermost polygon around its child)',
                                  'same-polygons (as cyclic vertex sequences, each exactly once), Level = parent level + 1, IsHole <=> even level, IsHole <=> negative exact area are decided directly on every tree'],
-        'rule': 'nested rings to depth 6 (islands in holes in islands, second islands touching their hole), nested-vs-nested, and generic random pairs x clip types x fill rules through BooleanOpPolyTree64 and Clipper64.ExecutePolyTree64 (the float tree is tied to the 64-bit one by C07); pairwise parent/sibling certificates for trees of <= 14 nodes; non-trivial = depth >= 2',
+        'rule': 'corpus/c04.jsonl first; nested rings to depth 6 (islands in holes in islands, second islands touching their hole), nested-vs-nested, rectangle soups on a coarse lattice, the pinch family (two clip bars meeting along a horizontal line, holes and islands aligned with it), and generic random pairs x clip types x fill rules through BooleanOpPolyTree64 and Clipper64.ExecutePolyTree64 (the float tree is tied to the 64-bit one by C07); pairwise parent/sibling certificates for trees of <= 14 nodes; non-trivial = depth >= 2',
         'assumes': [],
     },
     'C05': {
         'run': run_c05, 'level': 'proof', 'trust': [t.replace('the Vatti sweep itself (clipper_base.go, engine.go)', 'the offsetter\'s per-vertex join construction (offset.go: float trigonometry, not modelled) and the final union') for t in REGION_TRUST] + [
                   'the strips and discs handed to the checker (points within |delta|-1 of an edge along its normal, discs of radius |delta|-tol about vertices for round joins) are built by the harness in floating point and rounded to the lattice; their containment in the ideal |delta|-tol neighbourhood is not re-proved',
                   'squared radii (k|delta| + tol)^2 are passed as rational upper bounds chosen by the harness; the checker uses them exactly'],
-        'rule': 'simple polygon sets (1-2 star-shaped islands of 3-10 vertices, holes inside islands with >= 6 vertices, either global orientation) x deltas of both signs from 0.3 to 2.5 diameters x 4 join types x miter limits 1..5 x arc tolerances 0..3, through InflatePaths64 and ClipperOffset with one group per island; per case up to 5 certificates (input kept / result inside input, normal strips and vertex discs, far bound, canonical form, over-shrink premise); non-trivial = |delta| >= 0.5',
+        'rule': 'simple polygon sets (1-2 star-shaped islands of 3-10 vertices, holes inside islands with >= 6 vertices listed before or after their island, either global orientation, rings also written with an explicit closing vertex or a repeated vertex; needles with an interior angle below 2.5 degrees) x deltas of both signs from 0.3 to 2.5 diameters x 4 join types x miter limits 1..5 x arc tolerances 0..3, through InflatePaths64 and ClipperOffset with one group per island; per case up to 5 certificates (input kept / result inside input, normal strips and vertex discs, far bound, canonical form, over-shrink premise); non-trivial = |delta| >= 0.5',
         'assumes': ['PARTIAL: certified with bands of 2 units around the input edges / the result\'s own edges and the radius k|delta|+tol; the join construction itself is not modelled'],
     },
     'C10': {
         'run': run_c10, 'level': 'proof', 'trust': [t.replace('the Vatti sweep itself (clipper_base.go, engine.go)', 'the offsetter\'s per-vertex join construction (offset.go: float trigonometry, not modelled) and the final union') for t in REGION_TRUST] + [
                   'the strips and discs handed to the checker (points within |delta|-1 of an edge along its normal, discs of radius |delta|-tol about vertices for round joins) are built by the harness in floating point and rounded to the lattice; their containment in the ideal |delta|-tol neighbourhood is not re-proved',
                   'squared radii (k|delta| + tol)^2 are passed as rational upper bounds chosen by the harness; the checker uses them exactly'],
-        'rule': 'open polylines of 1-6 points (duplicates, gentle turns) x 4 end types x 4 join types x half-widths 5%-30% of the segment length; per case: canonical form, both normal strips of every segment inside the result, nothing farther than k*delta+tol from the polyline, single points against an inscribed square/disc',
+        'rule': 'open polylines of 1-6 points (duplicates, gentle turns), loops whose last point repeats the first, a third of the calls with 1-2 companion polylines in the same call x 4 end types x 4 join types x half-widths 5%-30% of the segment length; per case: canonical form, both normal strips of every segment inside the result, nothing farther than k*delta+tol from the polyline, single points against an inscribed square/disc',
         'assumes': ['PARTIAL as C05'],
     },
     'C09': {
@@ -1518,7 +1518,7 @@ PROPS = {
                   'Xor is read as the code documents it for open paths (as Difference)',
                   'the closed solution computed together with open paths is certified against the closed inputs alone by C01_region; the sub-polyline clause (vertices within sqrt 2 of a subject segment) is decided directly',
                   'modelled rather than verified: the sweep\'s open-path handling is certified result-by-result'],
-        'rule': 'open polylines (2-7 points, horizontal segments, starting on clip vertices / running along clip edges) x closed clip sets (and closed subjects in a third of the cases) x 4 clip types x 4 fill rules through Clipper64.AddPaths(..., Subject, true) + ExecuteOC; every open subject segment is a certificate; non-trivial = non-empty open solution',
+        'rule': 'open polylines (2-7 points, horizontal segments anywhere including the first and doubling back, starting on clip vertices / running along clip edges) x closed clip sets (and closed subjects in a third of the cases) x 4 clip types x 4 fill rules through Clipper64.AddPaths(..., Subject, true) + ExecuteOC; every open subject segment is a certificate; non-trivial = non-empty open solution',
         'assumes': [],
     },
     'C02': {
@@ -1527,3 +1527,11 @@ PROPS = {
         'assumes': [],
     },
 }
+
+
+# K3 additions (models regenerated from the source text on every run)
+_K3DEC = "K3: clipper_base.go:isContributingClosed / isContributingOpen are translated from the current source on every run (harness/decisions.go: switch/if/return/local variables, continuation-passing) into Gen/Decisions_gen.v and proved equal to 'the expected region differs across the edge' / want_open for every fill rule, clip type and wind count (Model/DecisionProofs.v); the translator is trusted, untranslatable code breaks the theorem"
+_K3WC = 'K3: the wind-count statements of setWindCountForClosedPathEdge and intersectEdges are translated (harness/fragments.go) into Gen/Windcount_gen.v and proved to maintain the left/right encoding of windCount (Model/WindcountProofs.v); the global sweep invariant (ordered active edge list, every crossing found) is NOT proved'
+_K3RECT = "K3: rect_clip.go:getLocation, headingClockwise, getAdjacentLocation, areOpposites, getEdgesForPt are translated on every run (harness/pure.go) into Gen/RectLeaf_gen.v and proved against their specifications (Model/RectLeafProofs.v); Go's % is read as Z.modulo (operands are non-negative in the stated ranges); the translator is trusted"
+for _pid, _extra in (('C01', [_K3DEC, _K3WC]), ('C19', [_K3DEC]), ('C09', [_K3DEC]), ('C06', [_K3RECT]), ('C11', [_K3RECT])):
+    PROPS[_pid]['trust'] = list(PROPS[_pid]['trust']) + _extra
